@@ -47,7 +47,12 @@ def check(ctx: Ctx) -> str:
         ctx.check(len(ifs) == 1, f"{maker}:one-branch", f"compiler:{maker}", "single decision", "expected exactly one sandbox decision in the visitor", fi.loc(v))
         if not ifs:
             continue
-        test = ast.unparse(ifs[0].test)
+        test_node = ifs[0].test
+        if isinstance(test_node, ast.Name):  # a local naming the interception test
+            src_ = [a for a in ast.walk(v) if isinstance(a, ast.Assign) and len(a.targets) == 1 and isinstance(a.targets[0], ast.Name) and a.targets[0].id == test_node.id]
+            if len(src_) == 1:
+                test_node = src_[0].value
+        test = ast.unparse(test_node)
         ctx.check(test == f"self.environment.sandboxed and op in self.environment.{table}", f"{maker}:test", f"compiler:{maker}", "interception test",
                   f"the interception branch is taken under `{test}`; it must be `self.environment.sandboxed and op in self.environment.{table}`", fi.loc(ifs[0]), detail={"test": test})
         tw = [ast.unparse(c.args[0]) for c in astq.calls(ast.Module(body=ifs[0].body, type_ignores=[])) if astq.callee(c) == "self.write"]
@@ -72,7 +77,16 @@ def check(ctx: Ctx) -> str:
         rs = [r for r in astq.raises(fi.node) if astq.raise_type(r).endswith("Impossible") and not astq.ancestors_handlers(r)]
         ok = False
         for r in rs:
-            gs = sorted(astq.guard_atoms(fi.node, r))
+            # a local that only names an attribute chain (`environment = eval_ctx.environment`) is looked through
+            import re as _re
+
+            subst = {a.targets[0].id: ast.unparse(a.value) for a in ast.walk(fi.node) if isinstance(a, ast.Assign) and len(a.targets) == 1 and isinstance(a.targets[0], ast.Name) and isinstance(a.value, ast.Attribute) and a.targets[0].id not in fi.params()}
+            gs = []
+            for g_, p_ in astq.guard_atoms(fi.node, r):
+                for k_, v_ in subst.items():
+                    g_ = _re.sub(rf"(?<![\w.]){k_}\b", v_, g_)
+                gs.append((g_, p_))
+            gs = sorted(gs)
             if gs == sorted([("eval_ctx.environment.sandboxed", True), (f"self.operator in eval_ctx.environment.{table}", True)]):
                 ok = True
                 # the evaluation lies on a path where the refusal did not fire (its early exit dominates the call)
@@ -117,21 +131,29 @@ def check(ctx: Ctx) -> str:
     ctx.rule("R4", "every written operator becomes an operator node: in the parser levels of the interceptable operators the branch / loop taken on the operator token builds the node class unconditionally (no operand is special-cased into 'no operation'), so each application reaches the interception point")
     pu = repo.func("parser:Parser.parse_unary")
     for tok, cls in (("sub", "Neg"), ("add", "Pos")):
-        br = [n_ for n_ in ast.walk(pu.node) if isinstance(n_, ast.If) and ast.unparse(n_.test) == f"token_type == '{tok}'"]
-        ctx.need(len(br) == 1, f"parse_unary: branch for token {tok} not found")
-        assigns = [s_ for s_ in br[0].body if isinstance(s_, ast.Assign) and ast.unparse(s_.targets[0]) == "node"]
-        nested = [s_ for s_ in br[0].body if isinstance(s_, (ast.If, ast.For, ast.While, ast.Try, ast.Return))]
-        ok = len(assigns) == 1 and isinstance(assigns[0].value, ast.Call) and astq.callee(assigns[0].value) == f"nodes.{cls}" and not nested
+        # the node class is built for the token, and nothing but the token decides whether it
+        # is built (no operand is special-cased) - however the two branches are arranged
+        builds = [a for a in ast.walk(pu.node) if isinstance(a, ast.Assign) and ast.unparse(a.targets[0]) == "node" and isinstance(a.value, ast.Call) and astq.callee(a.value) == f"nodes.{cls}"]
+        ctx.need(len(builds) >= 1, f"parse_unary no longer builds nodes.{cls}")
+        ga = astq.guard_atoms(pu.node, builds[0])
+        other_tok = "add" if tok == "sub" else "sub"
+        on_token = (f"token_type == '{tok}'", True) in ga or ((f"token_type == '{other_tok}'", False) in ga and any("token_type" in g_ and p_ for g_, p_ in ga))
+        foreign = [g_ for g_, p_ in ga if "token_type" not in g_]
+        # every assignment to `node` on that token's path is the constructor (nothing replaces it)
+        rivals = [a for a in ast.walk(pu.node) if isinstance(a, ast.Assign) and ast.unparse(a.targets[0]) == "node" and a not in builds and (f"token_type == '{tok}'", True) in astq.guard_atoms(pu.node, a) and not (isinstance(a.value, ast.Call) and astq.callee(a.value) == "self.parse_postfix")]
+        ok = len(builds) == 1 and on_token and not foreign and not rivals
         ctx.check(ok, f"parse_unary:{tok}", "parser:Parser.parse_unary", f"unary {tok} does not always build nodes.{cls}",
-                  f"parse_unary must turn every unary `{'-' if tok == 'sub' else '+'}` into nodes.{cls}(<operand>); here the branch holds {[ast.unparse(s_)[:60] for s_ in br[0].body]}: an application that produces no {cls} node is neither folded under the interception guard nor compiled to call_unop, so a sandbox intercepting the operator never sees it", pu.loc(br[0]))
+                  f"parse_unary must turn every unary `{'-' if tok == 'sub' else '+'}` into nodes.{cls}(<operand>); the constructor is reached under {ga} (conditions besides the token: {foreign}; other values for the node on that path: {[ast.unparse(r_)[:50] for r_ in rivals]}): an application that produces no {cls} node is neither folded under the interception guard nor compiled to call_unop, so a sandbox intercepting the operator never sees it", pu.loc(builds[0]))
     for meth, toks in (("parse_math1", ("add", "sub")), ("parse_math2", ("mul", "div", "floordiv", "mod")), ("parse_pow", ("pow",))):
         fi = repo.func(f"parser:Parser.{meth}")
         loops = [n_ for n_ in ast.walk(fi.node) if isinstance(n_, ast.While)]
         ctx.need(len(loops) == 1, f"{meth}: operator loop not found")
         body = loops[0].body
-        builds = [s_ for s_ in body if isinstance(s_, ast.Assign) and ast.unparse(s_.targets[0]) == "left" and isinstance(s_.value, ast.Call)]
+        # `acc = <node class>(acc, <operand>)`: the accumulator is what the function returns
+        rets_ = [ast.unparse(r_.value) for r_ in astq.returns(fi.node) if r_.value is not None]
+        builds = [s_ for s_ in body if isinstance(s_, ast.Assign) and isinstance(s_.value, ast.Call) and len(s_.value.args) >= 2 and ast.unparse(s_.targets[0]) == ast.unparse(s_.value.args[0]) and ast.unparse(s_.targets[0]) in rets_]
         nested = [s_ for s_ in body if isinstance(s_, (ast.If, ast.Try, ast.Return, ast.Break, ast.Continue))]
-        ok = len(builds) == 1 and not nested and [ast.unparse(a) for a in builds[0].value.args[:2]] == ["left", "right"]
+        ok = len(builds) == 1 and not nested and ast.unparse(builds[0].value.args[1]) != ast.unparse(builds[0].value.args[0])
         ctx.check(ok, f"{meth}:builds", f"parser:Parser.{meth}", f"operator loop of {meth} does not always build the node",
                   f"{meth} must build <operator class>(left, right) for every operator token it consumes; loop body: {[ast.unparse(s_)[:50] for s_ in body]}", fi.loc(loops[0]))
     return __doc__ or ""
